@@ -38,6 +38,7 @@ type ViolationRecord struct {
 	Viol     Violation `json:"violation"`
 	Decoded  any       `json:"decoded,omitempty"`
 	Shrunk   bool      `json:"shrunk"`
+	Degraded bool      `json:"degraded_schedule,omitempty"`
 	Execs    int       `json:"shrink_execs,omitempty"`
 	Note     string    `json:"note,omitempty"`
 }
@@ -265,7 +266,7 @@ func Worker(prop, tier string, seed int64, shard, of, runs int, arm string, dead
 				res.Viols = append(res.Viols, ViolationRecord{
 					Property: prop, Tier: tier, Seed: seed, Index: idx, Arm: arm,
 					Tape: tape, Blob: rc.Blob,
-					Viol: *rc.Viol, Decoded: rc.Decoded,
+					Viol: *rc.Viol, Decoded: rc.Decoded, Degraded: rc.Degraded,
 				})
 				for _, o := range rc.Others {
 					res.ViolCount++
@@ -360,7 +361,7 @@ func ShrinkFile(in, out string) error {
 		os.WriteFile(out, nb, 0o644)
 		return errors.New(vr.Note)
 	}
-	min, execs := Shrink(vr.Tape, budget, fails)
+	min, execs := ShrinkUntil(vr.Tape, budget, time.Now().Add(40*time.Second), fails)
 	// final execution on the minimal tape for decoded output
 	if poisoned && last != nil {
 		vr.Tape = append([]uint64(nil), last.T.Used()...)
@@ -368,6 +369,7 @@ func ShrinkFile(in, out string) error {
 		vr.Execs = execs
 		vr.Viol = *last.Viol
 		vr.Decoded = last.Decoded
+		vr.Degraded = last.Degraded
 	} else if _, ok := fails(min); ok {
 		vr.Tape = min
 		vr.Shrunk = true
@@ -471,6 +473,11 @@ func runArm(e *Engine, o Options, bin, arm string, runs int, wallCap float64) (*
 			err := cmd.Run()
 			out[w].shard = w
 			out[w].errb = se.String()
+			if err != nil && arm == "race" && json.Unmarshal(so.Bytes(), &out[w].res) == nil && out[w].res.Planned > 0 {
+				// the worker reported completely and then died while exiting (the race runtime aborts at exit when a
+				// run that was torn down after a real hang left goroutines behind): the report stands
+				err = nil
+			}
 			if err != nil {
 				out[w].err = err
 				if prog != "" {
@@ -625,7 +632,13 @@ func RunCheck(o Options) int {
 		rb, _ := json.MarshalIndent(&v, "", " ")
 		os.WriteFile(rawPath, rb, 0o644)
 		final := v
-		if v.Viol.Class != "worker-crash" {
+		if v.Viol.Class != "worker-crash" && ki >= 8 {
+			// minimise the first keys only; the rest is reported as found
+			v.Note = "not minimised (more than 8 distinct violation keys in this run)"
+			rb, _ := json.MarshalIndent(&v, "", " ")
+			os.WriteFile(outPath, rb, 0o644)
+			os.Remove(rawPath)
+		} else if v.Viol.Class != "worker-crash" {
 			cmd := exec.Command(bin, "shrink", rawPath, outPath)
 			cmd.Env = raceEnv(v.Arm)
 			if ob, err := cmd.CombinedOutput(); err != nil {
@@ -664,6 +677,13 @@ func RunCheck(o Options) int {
 			final.Viol.Detail = truncate(string(ob), 3000)
 			nb, _ := json.MarshalIndent(&final, "", " ")
 			os.WriteFile(outPath, nb, 0o644)
+		} else if !reproduced && final.Degraded {
+			// the violation was observed on the real code, but the run contained blocking the scheduler does not
+			// model, so its interleaving is not fully tape-decided: report it, marked as not exactly replayable
+			final.Note = "observed in a run with un-modelled blocking (degraded schedule); replay is best-effort and did not reproduce in one attempt"
+			nb, _ := json.MarshalIndent(&final, "", " ")
+			os.WriteFile(outPath, nb, 0o644)
+			fmt.Printf("note: %s did not reproduce exactly (degraded schedule)\n", outPath)
 		} else if !reproduced {
 			fmt.Fprintf(os.Stderr, "INFRASTRUCTURE: replay of %s did not reproduce (exit %d)\n%s\n", outPath, code, truncate(string(ob), 2000))
 			return 2
